@@ -49,6 +49,34 @@ Proof. exact bridges_order_independent. Qed.
 Theorem C12_head_formulas_are_numbered_across_the_whole_input : forall (A : Type) (leA : A -> A -> bool) (P : list (frule A)) (o : output A),
   transform_program A leA P = Some o -> o_naux A o = tel_heads A P.
 Proof. exact aux_atoms_count. Qed.
+(* ---- input texts and #program directives (Model/Inputs.v; what a directive does is REGENERATED from ProgramTransformer.visit_Program, the model is
+   compared with transform() on random layouts of directives and texts on every run) ---- *)
+Require Import String FromParts Inputs InputsProofs.
+(* every text is resolved on its own: the statements of several input texts get the parts they get when each text is read alone, one text after the
+   other - nothing of an earlier text (its last directive, its final flag) reaches a later one *)
+Theorem C12_texts_are_resolved_one_by_one : forall (R : Type) (inputs : list (list (stmt R))),
+  resolve_inputs R inputs = List.concat (map (resolve R initial_state) inputs).
+Proof. exact texts_are_resolved_one_by_one. Qed.
+(* a text may be cut into two texts in front of any directive ... *)
+Theorem C12_cut_before_a_directive : forall (R : Type) (a b : list (stmt R)) (n : string),
+  resolve_inputs R ((a ++ SProg R n :: b) :: nil) = resolve_inputs R (a :: (SProg R n :: b) :: nil).
+Proof. exact cut_before_a_directive. Qed.
+(* ... and in front of another statement if the initial part is in force there - and only then: elsewhere the cut moves the statement into the initial part *)
+Theorem C12_cut_in_the_initial_part : forall (R : Type) (a b : list (stmt R)), state_after R initial_state a = initial_state ->
+  resolve_inputs R ((a ++ b) :: nil) = resolve_inputs R (a :: b :: nil).
+Proof. exact cut_in_the_initial_part. Qed.
+Theorem C12_cut_elsewhere_changes_the_part : forall (R : Type) (a : list (stmt R)) (r : R) (b : list (stmt R)), state_after R initial_state a <> initial_state ->
+  resolve_inputs R ((a ++ SRule R r :: b) :: nil) <> resolve_inputs R (a :: (SRule R r :: b) :: nil).
+Proof. exact cut_elsewhere_changes_the_part. Qed.
+(* the rewritten program (rules, bridge rules, look-ahead parts, numbering of head formulas) is the same for both layouts *)
+Theorem C12_transformer_output_does_not_depend_on_the_cut : forall (A : Type) (leA : A -> A -> bool) (a b : list (stmt (body_of A))) (n : string),
+  transform_inputs A leA ((a ++ SProg _ n :: b) :: nil) = transform_inputs A leA (a :: (SProg _ n :: b) :: nil).
+Proof. exact transformer_cut_before_a_directive. Qed.
+Print Assumptions C12_texts_are_resolved_one_by_one.
+Print Assumptions C12_cut_before_a_directive.
+Print Assumptions C12_cut_in_the_initial_part.
+Print Assumptions C12_cut_elsewhere_changes_the_part.
+Print Assumptions C12_transformer_output_does_not_depend_on_the_cut.
 Print Assumptions C12_head_formulas_are_numbered_across_the_whole_input.
 Print Assumptions C12_future_predicates_do_not_depend_on_statement_order.
 Print Assumptions C12_order_dup_split.
